@@ -3,6 +3,7 @@
 package report
 
 import (
+	"runtime"
 	"bufio"
 	"crypto/sha1"
 	"encoding/hex"
@@ -61,6 +62,9 @@ func Replay(c *Case) (string, bool, error) {
 	if r == nil {
 		return "", false, fmt.Errorf("no replayer for case kind %q", c.Kind)
 	}
+	// one P while replaying: process-global sync.Pool state (per-P slots) then
+	// behaves the same way from run to run
+	defer runtime.GOMAXPROCS(runtime.GOMAXPROCS(1))
 	return r(c)
 }
 
